@@ -285,7 +285,20 @@ func checkTable(rows []aRow, names []string, spec func(a map[string]bool) string
 			for i, n := range missing {
 				a[n] = mask&(1<<i) != 0
 			}
-			if want, got := spec(a), aShow(r.Result); want != got {
+			// the specification may name alternatives ("x|y": spellings of the
+			// same value under this assignment) or "*" (the assignment cannot
+			// occur)
+			want, got := spec(a), aShow(r.Result)
+			if want == "*" {
+				continue
+			}
+			matches := false
+			for _, alt := range strings.Split(want, "|") {
+				if alt == got {
+					matches = true
+				}
+			}
+			if !matches {
 				var parts []string
 				for _, n := range names {
 					parts = append(parts, fmt.Sprintf("%s=%v", n, a[n]))
